@@ -170,6 +170,14 @@ CLAIMED = {
                 "decoder is generated from the ADT facts and only decodes the embedded constant. " + TRUST,
         "technique": "if-chain and match-table extraction from MIR + exhaustive checks on decoded constant tables",
     },
+    "C24": {
+        "level": "Static decision of writer/reader coverage over 14 workbook types (every field read by code reachable from the xlsx "
+                 "writer and set from the package by code reachable from the reader), Cell variant arms/constructors, formula printer/"
+                 "parser pairing, the export-form PAREN cells, error literal tables and the XML escape table.",
+        "note": "That values and attributes survive numerically and textually is not decided. Allow-list of 5 fields with reasons; three "
+                "known findings (comments, diagonal border flags). " + TRUST,
+        "technique": "field read/write coverage over call-graph reachability + tables shared with C09",
+    },
     "C26": {
         "level": "Structural decision: Encode+Decode derived on the entire field closure of Workbook without bitcode "
                  "attributes; to_bytes/from_bytes/from_workbook have the required shape (whole workbook encoded, reparse "
